@@ -15,7 +15,7 @@ CLAIMED = {
    ref='§5 C08', technique='Lean 4 proof by kernel evaluation over regenerated tables + correspondence of C look-ups',
    note=TB + ' Known finding: two Wireless-Village extension tokens alias one name (listed in known_findings.json; theorem ext_tables_dec_enc_partial excludes exactly those rows).'),
  'C01': dict(
-   text='Theorems over the executable model of the whole WBXML->XML conversion (parser, tree builder incl. SyncML embedded documents and CDATA handling, XML printer), for ALL byte strings, ALL option tuples and arbitrary language tables: w2x_total (result is success or a non-zero error code: never fuel exhaustion, never one of the explicit UB flags that mark every unchecked pointer step of the C code, never a crash flag), w2x_contract, parser_depth_le_input, embedded_depth_le, w2x_generator_budget; size bounds: parse_events_size_le (events <= n(n+M+45), quadratic witness), w2x_output_le (output linear in tree size x depth x indent), w2x_bounded_partial (a fixed polynomial - quadratic compact, cubic indented - for documents WITHOUT embedded documents) and w2x_bounded_levels (one more degree per level of embedded documents; cubic_witness shows the clause 'fixed polynomial' is false as worded: recorded as a known finding and measured by the check as a growth exponent). The model is tied byte-exactly to the C code by the W2X correspondence (corpus, grammar-directed, mutated, SyncML, random inputs x option tuples) under ASan/UBSan/LSan with the input in a read-only mapping. Partial by nature: heap use, leaks and real stack frames are runtime facts - observed (sanitizers; peak resident set on a size ladder against 8 MiB + 16 x (input + output); growth exponent of the output at two scales; 8 MiB stack ladder), not proved.',
+   text='Theorems over the executable model of the whole WBXML->XML conversion (parser, tree builder incl. SyncML embedded documents and CDATA handling, XML printer), for ALL byte strings, ALL option tuples and arbitrary language tables: w2x_total (result is success or a non-zero error code: never fuel exhaustion, never one of the explicit UB flags that mark every unchecked pointer step of the C code, never a crash flag), w2x_contract, parser_depth_le_input, embedded_depth_le, w2x_generator_budget; size bounds: parse_events_size_le (events <= n(n+M+45), quadratic witness), w2x_output_le (output linear in tree size x depth x indent), w2x_bounded_partial (a fixed polynomial - quadratic compact, cubic indented - for documents WITHOUT embedded documents) and w2x_bounded_levels (one more degree per level of embedded documents; cubic_witness shows the clause "fixed polynomial" is false as worded: recorded as a known finding and measured by the check as a growth exponent). The model is tied byte-exactly to the C code by the W2X correspondence (corpus, grammar-directed, mutated, SyncML, random inputs x option tuples) under ASan/UBSan/LSan with the input in a read-only mapping. Partial by nature: heap use, leaks and real stack frames are runtime facts - observed (sanitizers; peak resident set on a size ladder against 8 MiB + 16 x (input + output); growth exponent of the output at two scales; 8 MiB stack ladder), not proved.',
    ref='§5 C01, §0', technique='Lean 4 proof over a byte-exact model + differential run under sanitizers + heap and stack ladders',
    note=TB + ' Known findings: nesting deeper than ~30k levels exhausts the 8 MiB stack; embedded documents reached through string-table references amplify the output by one degree per level (1 KB -> 8 MB). Model artefact stated by embedded_depth_le / embedded_cutoff_witness: embedded-document nesting beyond len levels is cut by the model (needs adversarial tables).'),
  'C04': dict(
